@@ -84,6 +84,7 @@ class Model:
         self.next_id = 0
         self.pch = None       # header name force-included into pch_users
         self.pch_users = set()
+        self.gen_k = None     # constant behind a generated header + source
 
     def new_id(self):
         self.next_id += 1
@@ -104,7 +105,8 @@ class Model:
         return x['k'] + sum(self.hval(i) for i in self.incs_of(s))
 
     def expected(self):
-        return sum(self.sval(s) for s in self.sources) % 1000003
+        extra = self.gen_k or 0
+        return (sum(self.sval(s) for s in self.sources) + extra) % 1000003
 
     def closure(self, incs):
         out, stack = set(), list(incs)
@@ -146,8 +148,12 @@ class Model:
         ids = [x['id'] for x in self.sources.values()]
         lines = ['#include <stdio.h>']
         lines += ['long val_{}(void);'.format(i) for i in ids]
+        if self.gen_k is not None:
+            lines += ['long val_generated(void);']
         lines += ['int main(void) {', '  long t = 0;']
         lines += ['  t += val_{}();'.format(i) for i in ids]
+        if self.gen_k is not None:
+            lines += ['  t += val_generated();']
         lines += ['  printf("%ld\\n", t % 1000003);', '  return 0;', '}', '']
         return '\n'.join(lines)
 
@@ -211,6 +217,12 @@ def setup(c, scn):
         m.pch = scn['pch']
         m.pch_users = {s_ for s_ in scn['sources']
                        if s_ not in scn['lib_sources']}
+    if scn.get('gen_k') is not None:
+        m.gen_k = scn['gen_k']
+        c.w.write('tmpl/genhdr.h.in', '#define VAL_GENERATED {}\n'.format(
+            m.gen_k))
+        c.w.write('tmpl/gensrc.c.in', '#include "genhdr.h"\nlong '
+                  'val_generated(void) { return VAL_GENERATED; }\n')
     for h in m.headers:
         c.write_model_file(h)
     for s in m.sources:
@@ -233,6 +245,16 @@ def setup(c, scn):
             scn['lib_kind'], 'part', files=lib_srcs, includes=['include']),
             'part'))
         libs = ', libs=[part]'
+    gen_inc = ''
+    if scn.get('gen_k') is not None:
+        # a multi-output custom step producing a header and a source
+        lines.append(G.Stmt('build_step', (
+            "build_step(['gen/genhdr.h', 'gen/gensrc.c'], cmd=['sh', '-c', "
+            "'cp \"$0\" \"$2\" && cp \"$1\" \"$3\"', build_step.input, "
+            "build_step.output], files=['tmpl/genhdr.h.in', "
+            "'tmpl/gensrc.c.in'])"), 'gen'))
+        exe_files += ' + [gen[1]]'
+        gen_inc = ', gen[0]'
     pch = ''
     if scn.get('pch'):
         lines.append(G.Stmt('precompiled_header', G.call(
@@ -240,8 +262,8 @@ def setup(c, scn):
             includes=['include']), 'pchobj'))
         pch = ', pch=pchobj'
     lines.append(G.Stmt('executable', "executable('prog', files={}, "
-                        "includes=['include']{}{})".format(exe_files, libs,
-                                                           pch), 'prog'))
+                        "includes=['include'{}]{}{})".format(
+                            exe_files, gen_inc, libs, pch), 'prog'))
     proj.scripts['build.bfg'] = lines
     c.w.write('build.bfg', proj.script_text('build.bfg'))
     c.proj = proj
@@ -348,6 +370,14 @@ def execute(root, cfg, scn, ops, chars):
                 c.write_model_file(s)
                 c.trace.append(['modify-source', s])
                 do_build(c, {s}, 'modify-source')
+            elif k == 'modify-template':
+                if m.gen_k is None:
+                    continue
+                m.gen_k = op[1]
+                c.w.write('tmpl/genhdr.h.in', '#define VAL_GENERATED {}\n'
+                          .format(m.gen_k))
+                c.trace.append(['modify-template'])
+                do_build(c, None, 'modify-template')
             elif k == 'add-header':
                 h, into = op[1], op[2]
                 if h in m.headers or (into not in m.headers and
@@ -427,6 +457,7 @@ def execute(root, cfg, scn, ops, chars):
                 want = set(m.sources) | {'main.c'}
                 if m.pch:
                     want.add(os.path.join('include', m.pch))
+                comp = {x for x in comp if not x.endswith('gensrc.c')}
                 links = len([s for s in r2.steps if '-c' not in s['argv']])
                 if comp != want or links < full_links:
                     c.vio('clean-recreates', 'after clean the build '
@@ -475,6 +506,7 @@ def gen_scenario(rng, chars):
             pch = rng.choice(plain)
     return {'headers': headers, 'sources': sources, 'use_find': use_find,
             'pch': pch,
+            'gen_k': rng.randrange(1, 1000) if rng.random() < 0.3 else None,
             'lib_sources': lib_sources,
             'lib_kind': rng.choice(['static_library', 'shared_library',
                                     'library']),
@@ -496,7 +528,9 @@ def run_case(seed, root, params=None):
         k = rng.choice(['modify-header'] * 4 + ['modify-source'] * 2 +
                        ['add-header'] * 2 + ['drop-include-delete'] * 2 +
                        ['rename-header'] * 2 + ['add-source', 'null', 'null',
-                                                'clean-build'])
+                                                'clean-build'] +
+                       (['modify-template'] * 3 + ['clean-build']
+                        if scn.get('gen_k') is not None else []))
         if k == 'modify-header' and hs:
             ops.append([k, rng.choice(hs), rng.randrange(1, 1000)])
         elif k == 'modify-source':
@@ -519,6 +553,8 @@ def run_case(seed, root, params=None):
             ops.append([k, s, rng.randrange(1, 1000),
                         rng.sample(hs, min(len(hs), rng.randint(0, 2)))])
             ss.append(s)
+        elif k == 'modify-template':
+            ops.append([k, rng.randrange(1, 1000)])
         elif k in ('null', 'clean-build'):
             ops.append([k])
         if rng.random() < 0.3:
